@@ -8,6 +8,7 @@ import (
 	"go/ast"
 	"go/parser"
 	"go/token"
+	"io"
 	"os"
 	"os/exec"
 	"path/filepath"
@@ -125,6 +126,7 @@ type nativeProc struct {
 	in     *bufio.Writer
 	dec    *json.Decoder
 	stderr *bytes.Buffer
+	pipe   io.WriteCloser
 }
 
 func (n *nativeProc) start() error {
@@ -143,6 +145,7 @@ func (n *nativeProc) start() error {
 		return err
 	}
 	n.in = bufio.NewWriter(stdin)
+	n.pipe = stdin
 	n.dec = json.NewDecoder(bufio.NewReaderSize(stdout, 1<<20))
 	return nil
 }
@@ -213,4 +216,32 @@ func obsEqual(a []interp.Observation, b []nativeObs) (bool, string) {
 		}
 	}
 	return true, ""
+}
+
+// runRace runs one job in a -race build and reports whether the Go race
+// detector printed a report mentioning the package under test.
+func runRace(bin string, j nativeJob) (bool, string) {
+	n := &nativeProc{bin: bin}
+	r := n.run(j)
+	_ = r
+	// let the process exit so that all reports are flushed
+	if n.cmd != nil {
+		n.in.Flush()
+		if n.pipe != nil {
+			n.pipe.Close()
+		}
+		done := make(chan struct{})
+		go func() { n.cmd.Wait(); close(done) }()
+		select {
+		case <-done:
+		case <-time.After(5 * time.Second):
+			n.cmd.Process.Kill()
+			<-done
+		}
+	}
+	out := ""
+	if n.stderr != nil {
+		out = n.stderr.String()
+	}
+	return strings.Contains(out, "DATA RACE") && strings.Contains(out, "github.com/wkhere/bcl"), out
 }
